@@ -155,3 +155,65 @@ func genHostBody() Gen {
 		}
 	}
 }
+
+// genCoChain — coroutines created by coroutines, to depth 2-4: level k creates level k+1 when it
+// starts (optionally resuming it at once, so that the creation happens below k nested resumes),
+// yields, and dies at its second resume; the driver then runs every sequence of up to 4 resumes
+// over the levels, so that deeper coroutines are used after the ones that created them (and the
+// ones that were resuming those at the time) are dead. Observed: every resume's results, every
+// status, the payloads each level sees.
+func genCoChain() Gen {
+	co := func(f string, args ...Expr) Expr { return Call(Dot(Name("coroutine"), f), args...) }
+	return func(yield func(*Prog)) {
+		for depth := 2; depth <= 4; depth++ {
+			for _, eager := range []bool{false, true} {
+				seqLen := 4
+				if depth == 4 {
+					seqLen = 3
+				}
+				var seqs [][]int
+				var rec func(cur []int)
+				rec = func(cur []int) {
+					if len(cur) > 0 {
+						seqs = append(seqs, append([]int(nil), cur...))
+					}
+					if len(cur) == seqLen {
+						return
+					}
+					for i := 1; i <= depth; i++ {
+						rec(append(cur, i))
+					}
+				}
+				rec(nil)
+				for _, sq := range seqs {
+					depth, eager, sq := depth, eager, sq
+					yield(&Prog{Family: "F-cochain", Shape: fmt.Sprintf("depth%d/eager=%v/%v", depth, eager, sq), Mk: func() *Block {
+						body := []Stat{Emit(Str("start"), Name("k"), Vararg())}
+						create := []Stat{Assign1(Index(Name("cos"), Bin("+", Name("k"), Num(1))), CallN("mk", Bin("+", Name("k"), Num(1))))}
+						if eager {
+							create = append(create, Emit(Str("eager"), Name("k"), co("resume", Index(Name("cos"), Bin("+", Name("k"), Num(1))), Str("from"), Name("k"))))
+						}
+						body = append(body, If(Bin("<", Name("k"), Num(float64(depth))), create...))
+						body = append(body, Local(names("v", "w"), co("yield", Bin("..", Str("y"), Name("k")), Name("k"))), Emit(Str("resumed"), Name("k"), Name("v"), Name("w")), Return(Bin("..", Str("ret"), Name("k"))))
+						st := []Stat{Local1("cos", TableE()), Local1("mk", Nil()),
+							Assign1(Name("mk"), Func(names("k"), false, Return(co("create", Func(nil, true, body...))))),
+							Assign1(Index(Name("cos"), Num(1)), CallN("mk", Num(1)))}
+						report := func() Stat {
+							var a []Expr
+							a = append(a, Str("status"))
+							for i := 1; i <= depth; i++ {
+								a = append(a, Bin("and", Index(Name("cos"), Num(float64(i))), co("status", Index(Name("cos"), Num(float64(i))))))
+							}
+							return Emit(a...)
+						}
+						for n, i := range sq {
+							st = append(st, If(Index(Name("cos"), Num(float64(i))),
+								Emit(Str("resume"), Num(float64(i)), co("resume", Index(Name("cos"), Num(float64(i))), Str(fmt.Sprintf("p%d", n)), Num(float64(n))))), report())
+						}
+						return Blk(st...)
+					}})
+				}
+			}
+		}
+	}
+}
